@@ -685,7 +685,10 @@ func runScript(s scriptT) obsT {
 						pst, _ := pc.ShipHandshakeState()
 						peerPending = pst == model.SmeHelloStatePendingListen
 					}
-					if !(st == model.SmeHelloStateReadyListen && peerPending) {
+					// ... but only while that user has not registered the peer: a request that went to pending-listen just before
+					// its user's Register (the registration found no connection to approve yet) is not a point of rest - the
+					// dialler's 60 s timer ends it and the pair connects anew, so the scenario is waited for
+					if !(st == model.SmeHelloStateReadyListen && peerPending && !registered[other[name]]) {
 						busy = true
 					}
 				}
